@@ -99,14 +99,31 @@ def run(model, col, tier):
         else:
             col.bad("R10.1", ck, f"unrecognised use of the sentinel-returning Match(): `{unparse(p)[:70]}`", TYPES, p)
     col.floor("R10.1", "Match() call sites in Function.Match", nsites, 1)
-    mcalls = [c for c in ast.walk(fm) if isinstance(c, ast.Call) and isinstance(c.func, ast.Name) and c.func.id == "Match"]
-    zips = [c for c in ast.walk(fm) if isinstance(c, ast.Call) and dotted(c.func) == "zip"]
-    okz = bool(zips) and len(zips[0].args) == 2 and unparse(zips[0].args[0]) == fm.args.args[1].arg and "rgumentTypes" in unparse(zips[0].args[1])
-    col.check(bool(mcalls) and okz and [unparse(a) for a in mcalls[0].args] == ["e[0]", "e[1]"], "R10.1", f"{TYPES}::Function.Match pairs call arguments with parameter types",
+    from ..sem import local_env, resolve, rtext, iterations
+
+    fm_env = local_env(fm)
+    pl_ = fm.args.args[1].arg
+    pair_ok = False
+    decl_ok = False
+    for itx, tgt, body, kind in iterations(fm):
+        itr = resolve(itx, fm_env)
+        if not (isinstance(itr, ast.Call) and dotted(itr.func) == "zip" and len(itr.args) == 2):
+            continue
+        mc = [c for b_ in body for c in ast.walk(b_) if isinstance(c, ast.Call) and isinstance(c.func, ast.Name) and c.func.id == "Match"]
+        if not mc:
+            continue
+        margs = [unparse(x) for x in mc[0].args]
+        if isinstance(tgt, ast.Name):
+            pair_ok = margs == [f"{tgt.id}[0]", f"{tgt.id}[1]"]
+        elif isinstance(tgt, ast.Tuple) and len(tgt.elts) == 2:
+            pair_ok = margs == [unparse(tgt.elts[0]), unparse(tgt.elts[1])]
+        a0, a1 = rtext(itr.args[0], fm_env), rtext(itr.args[1], fm_env)
+        pair_ok = pair_ok and a0 == pl_
+        decl_ok = "rgumentTypes.values()" in a1 and f"[:len({pl_})]" in a1.replace(" ", "")
+    col.check(pair_ok, "R10.1", f"{TYPES}::Function.Match pairs call arguments with parameter types",
               "Match(argument type, parameter type) over zip(parameterList, declared types)", "arguments and parameter types are not paired positionally in (argument, parameter) order", TYPES, fm)
-    mat = find_assign(fm, "matchingArgumentTypes")
-    col.check(bool(mat) and ".values()" in unparse(mat[0]) and "[:len(parameterList)]" in unparse(mat[0]).replace(" ", ""), "R10.1", f"{TYPES}::Function.Match uses the declared parameter types",
-              "the resolved parameter types, cut to the number of arguments", f"parameter types come from {[unparse(m) for m in mat]}", TYPES, fm)
+    col.check(decl_ok, "R10.1", f"{TYPES}::Function.Match uses the declared parameter types",
+              "the resolved parameter types, cut to the number of arguments", "the parameter types are not the resolved declared types cut to the number of arguments", TYPES, fm)
     # types.Match: -1 / 0 / 1
     outcomes = {}
     for evs, status in paths(tm.body):
@@ -129,62 +146,104 @@ def run(model, col, tier):
     sc = model.cls(TYPES, "Scope")
     ff = sc.own_method("FindFunction")
     nested = {n.name: n for n in ast.walk(ff) if isinstance(n, ast.FunctionDef) and n is not ff}
-    # the ranking expression
-    rk = find_assign(ff, "ranking")
-    if not rk:
-        raise AnchorMissing(f"{TYPES}::Scope.FindFunction: `ranking` not found")
-    rexpr = rk[0]
-    filt = [c for c in ast.walk(rexpr) if isinstance(c, ast.Call) and dotted(c.func) == "filter"]
-    srt = [c for c in ast.walk(rexpr) if isinstance(c, ast.Call) and dotted(c.func) in ("sorted",)]
-    comp = [c for c in ast.walk(rexpr) if isinstance(c, (ast.ListComp, ast.GeneratorExp))]
-    # filter predicate folded over scores
-    pred_ok = False
-    pred_txt = None
-    if filt and isinstance(filt[0].args[0], ast.Name) and filt[0].args[0].id in nested:
-        pf = nested[filt[0].args[0].id]
-        pr = [r.value for r in ast.walk(pf) if isinstance(r, ast.Return)]
-        pred_txt = unparse(pr[0]) if pr else None
+    ff_env = local_env(ff)
+    fn_, at_ = ff.args.args[1].arg, ff.args.args[2].arg
+    # the variable holding the ranking = the one whose [0][1] is returned
+    RV = None
+    for r in ast.walk(ff):
+        if isinstance(r, ast.Return) and isinstance(r.value, ast.Subscript) and isinstance(r.value.value, ast.Subscript) and isinstance(r.value.value.value, ast.Name) \
+                and unparse(r.value.slice) == "1" and unparse(r.value.value.slice) == "0":
+            RV = r.value.value.value.id
+    if RV is None:
+        # the best candidate may be held in a local:  best = ranking[0]; return best[1]
+        for r in ast.walk(ff):
+            if isinstance(r, ast.Return) and r.value is not None:
+                rr = resolve(r.value, ff_env)
+                if isinstance(rr, ast.Subscript) and isinstance(rr.value, ast.Subscript) and isinstance(rr.value.value, ast.Name) and unparse(rr.slice) == "1" and unparse(rr.value.slice) == "0":
+                    RV = rr.value.value.id
+    if RV is None:
+        raise AnchorMissing(f"{TYPES}::Scope.FindFunction: no `return <ranking>[0][1]` found")
+    ff_env = {k: v for k, v in ff_env.items() if k != RV}
+
+    def callable_body(f, bind):
+        """(expression, env) of a one-argument callable given as nested def name / lambda"""
+        if isinstance(f, ast.Name) and f.id in nested:
+            d = nested[f.id]
+            rr = [r.value for r in ast.walk(d) if isinstance(r, ast.Return)]
+            return (rr[0], {d.args.args[0].arg: bind}) if len(rr) == 1 else (None, {})
+        if isinstance(f, ast.Lambda) and len(f.args.args) == 1:
+            return f.body, {f.args.args[0].arg: bind}
+        return None, {}
+
+    def fold_pred(expr, env_):
         try:
-            res = [bool(ev(pr[0], {pf.args.args[0].arg: (s, None)})) for s in (-2, -1, 0, 1, 5)]
-            pred_ok = res == [False, False, True, True, True]
+            return bool(ev(expr, env_, calls={k: (lambda v, d=nested[k]: ev([r.value for r in ast.walk(d) if isinstance(r, ast.Return)][0], {d.args.args[0].arg: v})) for k in nested}))
         except CannotEval:
-            pred_ok = False
-    elif comp:
-        ifs = [i for c in comp for g in c.generators for i in g.ifs]
-        pred_txt = ", ".join(unparse(i) for i in ifs)
-    col.check(pred_ok, "R10.2", f"{TYPES}::Scope.FindFunction viability filter", f"candidates are kept iff `{pred_txt}` (score >= 0)",
-              f"the viability filter `{pred_txt}` does not keep exactly the candidates with a non-negative score (a 0 = exact match must stay, negatives must go)", TYPES, ff)
+            return None
+
+    # (a) scoring
+    tup_ok = False
+    for n in ast.walk(ff):
+        if isinstance(n, (ast.ListComp, ast.GeneratorExp)) and isinstance(n.elt, ast.Tuple) and len(n.elt.elts) == 2:
+            e0, e1 = n.elt.elts
+            g = n.generators[0]
+            if f"Match({at_})" in unparse(e0) and unparse(e1) == unparse(g.target) and unparse(e0).startswith(unparse(g.target) + ".") and not g.ifs:
+                tup_ok = rtext(g.iter, ff_env) == f"self.__functions[{fn_}]"
+    col.check(tup_ok, "R10.2", f"{TYPES}::Scope.FindFunction scores every candidate", "(candidate.Match(argumentTypes), candidate) for every function registered under the name",
+              "not every registered candidate of that name is scored against the call's argument types (score first, candidate second)", TYPES, ff)
+    # (b) ordering
     key_ok = False
-    if srt:
-        kws = {k.arg: k.value for k in srt[0].keywords}
-        rev = kws.get("reverse")
-        keyf = kws.get("key")
-        if isinstance(keyf, ast.Name) and keyf.id in nested:
-            kr = [unparse(r.value) for r in ast.walk(nested[keyf.id]) if isinstance(r, ast.Return)]
-            key_ok = kr == [f"{nested[keyf.id].args.args[0].arg}[0]"]
-        elif keyf is None:
-            key_ok = False  # tuples of (score, Function) are not orderable on ties
-        key_ok = key_ok and (rev is None or (isinstance(rev, ast.Constant) and rev.value is False))
+    for n in ast.walk(ff):
+        if isinstance(n, ast.Call) and (dotted(n.func) == "sorted" or (isinstance(n.func, ast.Attribute) and n.func.attr == "sort")):
+            kws = {k.arg: k.value for k in n.keywords}
+            rev = kws.get("reverse")
+            keyf = kws.get("key")
+            if keyf is None:
+                continue
+            if isinstance(keyf, ast.Call) and dotted(keyf.func) in ("operator.itemgetter", "itemgetter") and unparse(keyf.args[0]) == "0":
+                k_ok = True
+            else:
+                body_, env_ = callable_body(keyf, None)
+                k_ok = body_ is not None and unparse(body_) == f"{list(env_)[0]}[0]"
+            key_ok = k_ok and (rev is None or (isinstance(rev, ast.Constant) and rev.value is False))
     col.check(key_ok, "R10.2", f"{TYPES}::Scope.FindFunction ranking order", "candidates are sorted ascending by score",
               "candidates are not sorted ascending by their score (the best candidate must come first)", TYPES, ff)
-    tup_ok = False
-    for c in comp:
-        if isinstance(c.elt, ast.Tuple) and len(c.elt.elts) == 2:
-            e0, e1 = c.elt.elts
-            tup_ok = "Match(argumentTypes)" in unparse(e0) and unparse(e1) == unparse(c.generators[0].target) and "candidates" in unparse(c.generators[0].iter)
-    col.check(tup_ok, "R10.2", f"{TYPES}::Scope.FindFunction scores every candidate", "(candidate.Match(argumentTypes), candidate) for every candidate of that name",
-              "not every registered candidate is scored against the call's argument types", TYPES, ff)
-    cands = find_assign(ff, "candidates")
-    col.check(bool(cands) and unparse(cands[0]) == f"self.__functions[{ff.args.args[1].arg}]", "R10.2", f"{TYPES}::Scope.FindFunction candidate set", "all functions registered under the name", f"candidates = {[unparse(c) for c in cands]}", TYPES, ff)
+    # (c) viability filter, folded over scores
+    pred_ok = False
+    pred_txt = None
+    scores = (-2, -1, 0, 1, 5)
+    wantv = [False, False, True, True, True]
+    for n in ast.walk(ff):
+        if isinstance(n, ast.Call) and dotted(n.func) == "filter" and n.args:
+            body_, env0 = callable_body(n.args[0], None)
+            if body_ is not None:
+                pred_txt = unparse(body_)
+                pred_ok = [fold_pred(body_, {list(env0)[0]: (s_, None)}) for s_ in scores] == wantv
+        if isinstance(n, (ast.ListComp, ast.GeneratorExp)) and n.generators[0].ifs and not (isinstance(n.elt, ast.Tuple) and "Match(" in unparse(n.elt)):
+            g = n.generators[0]
+            cond = g.ifs[0] if len(g.ifs) == 1 else ast.BoolOp(op=ast.And(), values=g.ifs)
+            pred_txt = unparse(cond)
+            res = []
+            for s_ in scores:
+                if isinstance(g.target, ast.Name):
+                    env_ = {g.target.id: (s_, None)}
+                elif isinstance(g.target, ast.Tuple):
+                    env_ = {unparse(g.target.elts[0]): s_}
+                else:
+                    env_ = {}
+                res.append(fold_pred(cond, env_))
+            pred_ok = pred_ok or res == wantv
+    col.check(pred_ok, "R10.2", f"{TYPES}::Scope.FindFunction viability filter", f"candidates are kept iff `{pred_txt}` (score >= 0)",
+              f"the viability filter `{pred_txt}` does not keep exactly the candidates with a non-negative score (a 0 = exact match must stay, negatives must go)", TYPES, ff)
     # path outcomes
     fn, at = ff.args.args[1].arg, ff.args.args[2].arg
     seen = {"unknown-delegate": False, "unknown-raise": False, "empty-raise": False, "single": False, "tie-raise": False, "best": False}
     problems = []
     for evs, status in paths(ff.body):
-        conds = cond_atoms(evs)
+        conds = cond_atoms(evs, ff_env)
         unknown = conds.get(f"{fn} in self.__functions") is False
         raised = [unparse(c.func) for c in calls_on_path(evs) if last_attr(c) == "Raise"] if status == "raise" else []
-        rv = unparse(evs[-1].node.value) if status == "return" and evs[-1].node.value is not None else None
+        rv = rtext(evs[-1].node.value, ff_env) if status == "return" and evs[-1].node.value is not None else None
         if unknown:
             if conds.get("self.__parent is None") is False:
                 good = rv == f"self.__parent.FindFunction({fn}, {at})"
@@ -197,30 +256,30 @@ def run(model, col, tier):
                 if not good:
                     problems.append(f"unknown name without parent scope does not raise the unknown-function error ({status}, {raised})")
             continue
-        if conds.get("len(ranking) == 0") is True or conds.get("not ranking") is True:
+        if conds.get(f"len({RV}) == 0") is True or conds.get(RV) is False:
             good = any("NO_MATCHING" in r for r in raised)
             seen["empty-raise"] |= good
             if not good:
                 problems.append("an empty ranking does not raise the no-matching-overload error")
             continue
-        if conds.get("len(ranking) == 1") is True:
-            good = rv == "ranking[0][1]"
+        if conds.get(f"len({RV}) == 1") is True:
+            good = rv == f"{RV}[0][1]"
             seen["single"] |= good
             if not good:
                 problems.append(f"a single viable candidate: returns {rv}")
             continue
-        if conds.get("ranking[0][0] == ranking[1][0]") is True:
+        if (conds.get(f"{RV}[0][0] == {RV}[1][0]") is True or conds.get(f"{RV}[1][0] == {RV}[0][0]") is True):
             good = any("AMBIGUOUS" in r for r in raised)
             seen["tie-raise"] |= good
             if not good:
                 problems.append("equal best scores do not raise the ambiguity error")
             continue
         if status == "return":
-            tie_tested = "ranking[0][0] == ranking[1][0]" in conds
-            good = rv == "ranking[0][1]" and tie_tested
+            tie_tested = f"{RV}[0][0] == {RV}[1][0]" in conds or f"{RV}[1][0] == {RV}[0][0]" in conds
+            good = rv == f"{RV}[0][1]" and tie_tested
             seen["best"] |= good
             if not good:
-                problems.append(f"multi-candidate path returns {rv} (tie tested: {tie_tested}); expected ranking[0][1] after the tie test")
+                problems.append(f"multi-candidate path returns {rv} (tie tested: {tie_tested}); expected <ranking>[0][1] after the tie test")
     for k, v in seen.items():
         col.check(v, "R10.2", f"{TYPES}::Scope.FindFunction outcome {k}", "present and correct",
                   f"outcome `{k}` is missing or wrong: " + "; ".join(problems), TYPES, ff)
@@ -262,7 +321,7 @@ def run(model, col, tier):
         rv = evs[-1].node.value
         if isinstance(rv, ast.UnaryOp):
             continue
-        conds = cond_atoms(evs)
+        conds = cond_atoms(evs, fm_env)
         lt = conds.get(f"len({pl}) < len(self.arguments)")
         gt = conds.get(f"len({pl}) > len(self.arguments)")
         if lt is None and gt is None:
